@@ -350,13 +350,30 @@ class C07(Check):
                 conf[nm] = (eff(own, gl), D, el)
                 wn.add_pipe("P%d" % k, prev if rng.random() < 0.7 else "R", nm, length=rng.uniform(50, 800), diameter=rng.choice([0.1, 0.2, 0.3]), roughness=100.0)
                 prev = nm
+            # in half of the cases the simulator object exists BEFORE the model is switched to pressure-dependent demand
+            early_sim = wntr.sim.WNTRSimulator(wn) if rng.random() < 0.5 else None
             wn.options.hydraulic.demand_model = "PDD"
             wn.options.hydraulic.minimum_pressure, wn.options.hydraulic.required_pressure, wn.options.hydraulic.pressure_exponent = gl
             wn.options.time.duration = 2 * 3600
             wn.options.time.hydraulic_timestep = 3600
             wn.options.time.pattern_timestep = 3600
+            if rng.random() < 0.4:
+                # the last junction is cut off for a while (its pipe closes at 1 h and reopens at 3 h); while it is cut off a
+                # control changes ITS required pressure: after the reconnection it must follow the new value
+                from wntr.network.controls import Control, ControlAction, SimTimeCondition
+                last = "J%d" % (nj - 1)
+                (pmin_l, pnom_l, e_l), D_l, el_l = conf[last]
+                new_pnom = pnom_l + rng.choice([7.0, 13.0])
+                LS = wntr.network.LinkStatus
+                pipe = wn.get_link("P%d" % (nj - 1))
+                wn.add_control("iso_close", Control(SimTimeCondition(wn, "=", 3600), ControlAction(pipe, "status", LS.Closed)))
+                wn.add_control("iso_preq", Control(SimTimeCondition(wn, "=", 7200), ControlAction(wn.get_node(last), "required_pressure", new_pnom)))
+                wn.add_control("iso_open", Control(SimTimeCondition(wn, "=", 10800), ControlAction(pipe, "status", LS.Opened)))
+                wn.options.time.duration = 5 * 3600
+                conf[last] = ((pmin_l, pnom_l, e_l), D_l, el_l, (10800, (pmin_l, new_pnom, e_l)))
+                ctx.count("sim_required_pressure_changed_while_isolated")
             try:
-                res = wntr.sim.WNTRSimulator(wn).run_sim()
+                res = (early_sim if early_sim is not None else wntr.sim.WNTRSimulator(wn)).run_sim()
             except Exception as e:
                 ctx.count("sim_error:" + type(e).__name__)
                 continue
@@ -364,8 +381,16 @@ class C07(Check):
                 ctx.count("sim_not_converged")
                 continue
             ctx.count("sim_ok")
-            for nm, ((pmin, pnom, e), D, el) in conf.items():
+            for nm, cf in conf.items():
+                (pmin0, pnom0, e0), D, el = cf[0], cf[1], cf[2]
+                change = cf[3] if len(cf) > 3 else None
                 for t in res.node["pressure"].index:
+                    (pmin, pnom, e) = (pmin0, pnom0, e0)
+                    if change is not None:
+                        if 3600 <= t < change[0]:
+                            continue  # cut off from every source: reported as zero (C09), not on the curve
+                        if t >= change[0]:
+                            (pmin, pnom, e) = change[1]
                     p = float(res.node["pressure"].loc[t, nm])
                     d = float(res.node["demand"].loc[t, nm])
                     reqs.append("pddcurve %s %s %s %s" % (fbits(pmin), fbits(pnom), fbits(e), fbits(p)))
